@@ -142,8 +142,11 @@ def r8_work(ctx: Ctx, rid: str = "C20.R8") -> None:
                     if lp is None:
                         raise AnalysisError("loop node of a listing append not found in the CFG")
                     body = edge_target(g, lp, "true")
-                    w = find_path(g, body, [lp.id], avoid=[a.id], labels=NORMAL) if body is not None and body != a.id else None
                     lst = dotted(a.ast.func.value)  # type: ignore[union-attr]
+                    # (an if / else that appends one spelling or the other: every iteration passes ONE of the appends to this list)
+                    sibs = [x.id for x in apps if dotted(x.ast.func.value) == lst  # type: ignore[union-attr]
+                            and [fr.node for fr in x.frames if fr.kind == "loop"][-1] is inner]
+                    w = find_path(g, body, [lp.id], avoid=sibs, labels=NORMAL) if body is not None and body not in sibs else None
                     returned = any(r.ast is not None and r.ast.value is not None and (  # type: ignore[union-attr]
                         lst in names_in(r.ast.value) or lst in ctx.slicer(f).origins(r.ast.value, r.id)["names"])  # type: ignore[union-attr]
                                    for r in g.nodes if r.kind == "return")  # (directly, or through a helper analysed in place)
@@ -151,6 +154,28 @@ def r8_work(ctx: Ctx, rid: str = "C20.R8") -> None:
                            "every listed object reaches the result" if w is None and returned else
                            "an entry can be skipped (or the list is not what is returned): recovery and the collector act on a "
                            "short listing", witness=ctx.path_witness(f, w), text=f"{ci.name}.list_files")
+            # the listing is MATERIALISED inside the (retried) operation: no scope of list_files hands back a generator object
+            for f in op_scopes(ctx, lf):
+                g = ctx.cfg(f)
+                for r in [x for x in g.nodes if x.kind == "return" and x.ast is not None and getattr(x.ast, "value", None) is not None]:
+                    v = r.ast.value  # type: ignore[union-attr]
+                    lazy = None
+                    if isinstance(v, ast.GeneratorExp):
+                        lazy = "a generator expression"
+                    elif isinstance(v, ast.Call):
+                        try:
+                            cal = ctx.prog.resolve_call(v, f)
+                        except Exception:
+                            cal = None
+                        if cal is not None and cal.kind == "func" and any(
+                                any(isinstance(y, (ast.Yield, ast.YieldFrom)) for y in ast.walk(t.node)) for t in cal.funcs):
+                            lazy = f"the generator `{norm_text(v)[:40]}`"
+                    if lazy:
+                        n_keep += 1
+                        ctx.ob(rid, f, "the listing is materialised inside the operation", r, False,
+                               f"{f.name} returns {lazy} unconsumed: the pages are fetched later, outside the retry layer and while the "
+                               "caller (the collector) is already deleting - a failure on a later page surfaces after deletions, as a "
+                               "raw client error", text=f"{ci.name}.list_files:lazy")
             if n_keep == 0:
                 ctx.ob(rid, lf, "listing keeps every entry", None, False, "no statement carries the listed objects into the returned list: "
                        "the listing is always empty - recovery finds no metadata file and the table is taken for uninitialised",
@@ -685,14 +710,16 @@ def r2(ctx: Ctx) -> None:
                     vx.append(not (exx["return"] or exx["fallthrough"]))
                     continue
                 # the 404 side may answer False by returning; every other code re-raises
-                bad_returns = [r for r in exx["return"] if not (isinstance(r.ast.value, ast.Constant) and r.ast.value.value is False)]  # type: ignore[union-attr]
+                bad_returns = [r for r in exx["return"] if not (isinstance(r.ast.value, ast.Constant) and r.ast.value.value is False)  # type: ignore[union-attr]
+                               and not (("inline-return" in r.flags or (nf is not ex_m and nf.parent is None)) and (r.ast.value is None or (isinstance(r.ast.value, ast.Constant)  # type: ignore[union-attr]
+                                                                                                  and r.ast.value.value in (None, False))))]  # type: ignore[union-attr]  # (a helper's `return None` = 'absent', handed to the caller's test)
                 # which SIDE of the dispatch re-raises: the side that is NOT the not-found code (an inverted test turns a 403 /
                 # throttling error into 'absent' and surfaces the 404)
                 sides = [(mr, orr) for _b, cs, mr, orr, _mo, _oo in code_branches(ctx, nf, hn) if set(cs) & NOT_FOUND_CODES]
                 sides_ok = bool(sides) and all("reraise" in orr and not mr for mr, orr in sides)
                 vx.append(rer and not bad_returns and set(absent) <= NOT_FOUND_CODES and sides_ok)
                 detail = (f"branch on 404: {bool(brs)}; codes read as 'absent': {absent}; other errors re-raised: {rer}; the re-raise sits "
-                          f"on the non-404 side: {sides_ok}")
+                          f"on the non-404 side: {sides_ok}" + (f"; the handler also returns {[norm_text(r.ast.value)[:20] if r.ast.value is not None else None for r in bad_returns]}" if bad_returns else ""))  # type: ignore[union-attr]
         okx = bool(vx) and all(vx)
         ctx.ob("C20.R2", ex_m, "exists: 404 -> False, everything else raises", None, okx, detail, text="exists")
         osk = s3.methods.get("open_seekable")
@@ -1065,18 +1092,39 @@ def r15_answers(ctx: Ctx, rid: str = "C20.R15") -> None:
         raise AnalysisError("S3StorageBackend.exists vanished")
     n_head = 0
     for nf in op_scopes(ctx, ex):
+        if nf.parent is None and nf is not ex and ctx.prog.is_transparent(nf):
+            continue  # a helper analysed in place: judged inside the scope that calls it
         g = ctx.cfg(nf)
         boto = [c for c in g.calls() if c.callee is not None and c.callee.kind == "prim" and c.callee.name.startswith("boto.") and c.id in g.reachable()]
+        # a boto response is a dict, never None: `response is not None` after a request that completed has one feasible side
+        dead = set()
+        for b in g.nodes:
+            if b.kind == "branch" and isinstance(b.ast, ast.Compare) and len(b.ast.ops) == 1 and isinstance(b.ast.ops[0], (ast.Is, ast.IsNot)) \
+                    and isinstance(b.ast.left, ast.Name) and isinstance(b.ast.comparators[0], ast.Constant) and b.ast.comparators[0].value is None:
+                ds = ctx.rd(nf).reaching(b.id, b.ast.left.id)
+                if ds and all(d_ != g.entry and isinstance(g.nodes[d_].ast, ast.Assign) and any(c.ast is g.nodes[d_].ast.value for c in boto) for d_ in ds):
+                    lab = "true" if isinstance(b.ast.ops[0], ast.Is) else "false"
+                    dead |= {(b.id, d_) for d_, l_ in g.succ[b.id] if l_ == lab}
         for h in [c for c in boto if c.callee.name == "boto.head_object"]:
             n_head += 1
             others = [c.id for c in boto if c is not h]
             rets = set()
-            for d, l in g.succ[h.id]:
-                if l in NORMAL:
-                    rets |= {x for x in reachable_from(g, d, NORMAL, avoid=others) | {d} if g.nodes[x].kind == "return"}
+            seen_ = set()
+            work_ = [d for d, l in g.succ[h.id] if l in NORMAL]
+            while work_:
+                x = work_.pop()
+                if x in seen_ or x in others:
+                    continue
+                seen_.add(x)
+                if g.nodes[x].kind == "return":
+                    rets.add(x)
+                work_ += [d for d, l in g.succ[x] if l in NORMAL and (x, d) not in dead]
             # the first answers after a successful HEAD (returns not separated from it by a branch on something else)
             dom = ctx.dom(nf, NORMAL)
             direct = [g.nodes[x] for x in rets if h.id in dom[x]]
+            if dead:
+                # (dominators do not know the infeasible side: take the returns reached first, i.e. not through another return)
+                direct = [g.nodes[x] for x in rets]
             vals = [r.ast.value for r in direct if r.ast is not None]  # type: ignore[union-attr]
             ok = bool(vals) and all(isinstance(v, ast.Constant) and v.value is True for v in vals)
             ctx.ob(rid, nf, "exists(): a successful HEAD answers True", h, ok,
